@@ -109,6 +109,10 @@ func (hc *histClient) hello2(kind string, a int, useReal bool) (rec []byte, real
 			inner.Exts = append(inner.Exts, echbox.ALPNExt([]string{"added"}))
 		}
 	}
+	if kind == "hello2-inner-edge" {
+		innerEdge(inner, a)
+		from, to = 0, 0
+	}
 	if kind == "hello2-outersni" {
 		if i := outer.Find(echbox.ExtSNI); i >= 0 {
 			outer.Exts[i] = echbox.SNIExt("elsewhere.example")
